@@ -75,7 +75,8 @@ def r2(ctx, rep):
     ok = False
     for i in f["body"]["s"]:
         if i.get("k") == "if" and show(i["c"]) == "(closure.args.len() > closure.params.len())":
-            ok = any(r.get("k") == "return" and show(r.get("e"), maxdepth=4).startswith("Err(") for r in walk(i["t"])) and "Too many arguments" in str(strs(i["t"]))
+            # (the message may be built by a helper; what matters is that this branch returns an error)
+            ok = any(r.get("k") == "return" and show(r.get("e"), maxdepth=4).startswith("Err(") for r in walk(i["t"]))
     rep.check(ok, "too-many", "fold_function must reject a call with more positional arguments than parameters", file=f["file"], line=f["l"], fn=f["path"])
     # the test must come before the closure is applied
     idx = [j for j, s in enumerate(f["body"]["s"]) if s.get("k") == "if" and show(s["c"]) == "(closure.args.len() > closure.params.len())"]
